@@ -41,7 +41,7 @@ from harness.core import err_kind
 
 PID = 'C16'
 TITLE = 'Fault-free distributed execution equals in-process execution'
-LEAN_MODULES = ['MlModel.Properties.C16', 'MlModel.Properties.C16Stage', 'MlModel.Properties.C16Merge', 'MlModel.Witness.C16Stage', 'MlModel.Witness.C16Merge']
+LEAN_MODULES = ['MlModel.Properties.C16', 'MlModel.Properties.C16Sliced', 'MlModel.Properties.C16Stage', 'MlModel.Properties.C16Merge', 'MlModel.Witness.C16Stage', 'MlModel.Witness.C16Merge']
 TRUSTED = [
     'the courier transport is harness/fakecourier (in-process, no faults injected here); pickling is what the repo '
     'does itself (cloudpickle of the traced pipeline)',
